@@ -483,6 +483,15 @@ class FunfitUnit(Unit):
             cases.append({"fn": rng.choice(self.FNS), "x0": x0, "x1": x1, "y0": gens.dyadic(rng, -8, 8, 3), "y1": gens.dyadic(rng, -8, 8, 3),
                           "x": x0 + t * (x1 - x0), "alpha": rng.choice([0.25, 0.5, 1.0, 1.5, 2.0, 3.0, 4.0, 5.0, 0.7, 2.3]),
                           "default": rng.random() < 0.15})
+        # abscissae on a large offset with a narrow window (epoch seconds, a window of 2^-6 .. 2 s; all exact in floats): the shapes
+        # are functions of (x - x0) / (x1 - x0) — forms that go through the absolute position (slope * x + intercept) cancel here
+        for _ in range(30 if tier == "quick" else 300):
+            x0 = rng.choice([1.7e9, 2.0 ** 31, 86.4e6]) + rng.randint(0, 1000)
+            w_ = rng.choice([2.0 ** -6, 0.001, 0.017, 0.3])
+            x1 = x0 + w_
+            t = rng.choice([0.0, 1.0, 0.5, 0.25, 0.75, rng.randint(0, 64) / 64])
+            cases.append({"fn": rng.choice(self.FNS), "x0": x0, "x1": x1, "y0": round(rng.uniform(-800, 800), 3), "y1": round(rng.uniform(-800, 800), 3),
+                          "x": x0 + t * (x1 - x0), "alpha": rng.choice([1.0, 2.0, 3.0, 0.5]), "default": rng.random() < 0.15})
         return cases
 
     def run(self, c):
@@ -650,6 +659,26 @@ class RfaMetaUnit(Unit):
                         c["y2"][-1] = c["y2"][0] + 3.0
                     c["k"] = rng.choice([0, len(c["y"]) - 1, c["k"]])
                 cases.append(c)
+        # pairs of series with the same length, first and last abscissa and n but other interior abscissae, run one after the other:
+        # nothing of the first recreation (an oversampled axis remembered per (n, length, end points), say) may reach the second
+        for s in ("pc", "linfixed", "expfixed", "cubic"):
+            m = rng.choice([4, 5, 6])
+            n_ = rng.choice([2, 4, 8])
+            first = float(rng.randint(-3, 3))
+            last = first + 4.0 * (m - 1)
+            for _k in range(2):
+                inner = sorted(rng.sample([first + 0.5 * j for j in range(1, 8 * (m - 1))], m - 2))
+                inner0 = sorted(rng.sample([first + 0.5 * j for j in range(1, 8 * (m - 1))], m - 2))
+                c = base.mk(rng, s, m=m, n=n_)
+                c["x"] = [first] + inner + [last]
+                c["prior_x"] = [first] + inner0 + [last]
+                c["y"] = [float(rng.randint(-8, 8)) for _ in range(m)]
+                c["ya"], c["yb"] = 2.0, 1.0
+                c["xc"], c["xd"] = 2.0, 3.0
+                c["k"] = rng.randrange(m)
+                c["delta"] = 1.0
+                c["y2"] = gens.values(rng, m, "int")
+                cases.append(c)
         # every oversampling factor 2..64 under a change of the time unit (seconds -> minutes, seconds -> hours, index -> seconds):
         # "all n" — whether a recreation in one unit has the shape of the recreation in another must not depend on how
         # spacing / n happens to round
@@ -678,6 +707,8 @@ class RfaMetaUnit(Unit):
     def run(self, c):
         try:
             x, y = c["x"], c["y"]
+            if c.get("prior_x"):
+                self.call(c, c["prior_x"], y)       # an earlier recreation in this process: same length, end points and n, other interior
             xs, ys = self.call(c, x, y)
             o = {"xs": xs.tolist(), "ys": ys.tolist()}
             if c["strategy"] != "function":
